@@ -91,6 +91,9 @@ type SimNet struct {
 	Rewrite func(e *Emission) []byte
 	// ReAddr, if set, may rewrite the source address seen by the receiver.
 	ReAddr func(e *Emission) net.Addr
+	// Capture: emissions of these endpoints are recorded in Captured and not delivered.
+	Capture  map[string]bool
+	Captured []Emission
 	// OnDeliver, if set, is called on the controller just before a datagram is queued at its receiver.
 	OnDeliver func(d *Delivery)
 }
@@ -355,6 +358,13 @@ func (n *SimNet) send(c *SimPacketConn, idx int, data []byte, to net.Addr) {
 	n.mu.Unlock()
 	if n.OnEmit != nil {
 		n.OnEmit(&em)
+	}
+	if n.Capture[c.name] {
+		n.mu.Lock()
+		n.Captured = append(n.Captured, em)
+		n.mu.Unlock()
+
+		return
 	}
 	payload := data
 	if n.Rewrite != nil {
